@@ -147,8 +147,11 @@ HORIZON_LIMIT = 3
 
 
 class deadline:
-    """SIGALRM horizon for one execution. After HORIZON_LIMIT hits inside one work item the remaining executions of that
-    item fail fast (still reported as horizon violations): a non-terminating configuration must not burn the budget."""
+    """Horizon for one execution, measured in CPU seconds of this process (ITIMER_PROF): the library is pure computation, so
+    a non-terminating execution burns CPU, while a machine that is merely busy (other checks running) cannot make a finite
+    execution look endless. A wall-clock backstop of 20x (at least 60 s) covers the unexpected blocking case.
+    After HORIZON_LIMIT hits inside one work item the remaining executions of that item fail fast (still reported as horizon
+    violations): a non-terminating configuration must not burn the budget."""
 
     def __init__(self, seconds: float):
         self.seconds = seconds
@@ -156,10 +159,13 @@ class deadline:
     def __enter__(self):
         if _HORIZON_HITS[0] >= HORIZON_LIMIT:
             raise Horizon("skipped: this work item already exceeded its horizon %d times" % HORIZON_LIMIT)
+        signal.signal(signal.SIGPROF, _alarm)
         signal.signal(signal.SIGALRM, _alarm)
-        signal.setitimer(signal.ITIMER_REAL, self.seconds)
+        signal.setitimer(signal.ITIMER_PROF, self.seconds)
+        signal.setitimer(signal.ITIMER_REAL, max(60.0, 20 * self.seconds))
 
     def __exit__(self, et, ev, tb):
+        signal.setitimer(signal.ITIMER_PROF, 0)
         signal.setitimer(signal.ITIMER_REAL, 0)
         if et is not None and issubclass(et, Horizon):
             _HORIZON_HITS[0] += 1
